@@ -1,14 +1,26 @@
 ID = "C14"
 LEVEL = "other"
-CONTRACT_MODULES = []
-FUNCTIONS = []
+CONTRACT_MODULES = ["contracts.table_rect"]
+FUNCTIONS = ["Table._select_rows", "Table._select_cols", "Table._copy"]
 RAC = "rac/c14.py"
 RAC_BUDGET = {"quick": 60, "thorough": 600}
 DESIGN_REF = "DESIGN.md section 4, C14"
-TECHNIQUE = "run-time contracts (class invariant Rect + frame on the source) on exhaustive derivation chains (bounded); deductive part under construction"
-TRUSTED = ["numpy"]
-ASSUMPTIONS = ["in-place cell/column writes on a derived table that shares arrays with its source are outside the statement (deriving itself changes nothing)"]
-BOUNDED = ["everything (this revision)"]
-EXPLANATION = "bounded run-time contract check"
-LEVEL_TEXT = "bounded"
-LEVEL_NOTE = "bounded"
+TECHNIQUE = ("contract-based deductive verification of the class invariant Rect across the deriving methods every selection goes "
+             "through (pyvc rect engine: column lists with object identity, dicts, numpy selection length; z3) + run-time contracts "
+             "on exhaustive derivation chains with snapshots of every earlier table")
+TRUSTED = ["numpy: len(a[rows]) depends on rows and len(a) only; element-wise evaluation of column expressions (Table.__getitem__ with a string: assumed contract)",
+           "Table.__init__: the unchecked constructor stores its arguments as given, the checked one copies dict and list (assumed)",
+           "Table.keys(exclude_columns=True) == set(_data) - set(_col_names) (assumed)", "z3 / cvc5"]
+ASSUMPTIONS = ["deriving itself changes nothing in the source; in-place cell/column writes on a derived table that shares ARRAYS with its "
+               "source (row slices are numpy views, _copy/cols share column arrays) are outside the statement",
+               "_select_cols may insert the index name into the list it is given (declared in its frame); cols[...] always passes a fresh list",
+               "requested column names are distinct and are columns or expressions, not scalar entries"]
+BOUNDED = ["+, *, concatenate, transposition, _select (expression fallback with row views), the checked constructor's rejections, "
+           "element-wise evaluation of column expressions: run-time only (all derivation chains of length <= 2 on tables of 0..4 rows)"]
+EXPLANATION = ("proved for _select_rows (behind rows[...], head, tail, reverse, unary minus), _select_cols (behind cols[...]) and _copy: "
+               "Rect(self) implies Rect(result) with the expected common length, the same index column, the derived column list is a "
+               "new list object (never the source's, never the caller's), scalar entries are carried over, and nothing reachable "
+               "from the source table is modified")
+LEVEL_TEXT = ("Mixed: three deriving methods proved (34 obligations, z3), the others are run-time contract checks over exhaustive short "
+              "derivation chains. Never claimed as proof.")
+LEVEL_NOTE = "See TRUSTED / BOUNDED in the evidence file."
